@@ -24,6 +24,9 @@ pub struct Case {
     /// for `openfail`: the file (as written) whose open fails
     #[serde(default)]
     pub missing: Option<String>,
+    /// for `usage`: the command line is malformed (what was done to it)
+    #[serde(default)]
+    pub usage_error: Option<String>,
 }
 
 pub const CWD: &str = "w";
@@ -77,6 +80,19 @@ impl Case {
             bytes: &self.stdin.bytes.0,
             mode,
         };
+        if let Some(why) = &self.usage_error {
+            // a malformed command line is a usage error whatever else it says: status 2,
+            // a diagnostic, no output
+            return Ok(Prediction {
+                chunks: vec![],
+                exits: vec![2],
+                stderr: Stderr::NonEmpty,
+                end: End::Done,
+                events: vec![],
+                why: format!("usage error: {why}"),
+                stderr_by_filter: false,
+            });
+        }
         let fs = CaseFs(self);
         let inv = self.inv.clone();
         std::panic::catch_unwind(std::panic::AssertUnwindSafe(|| cli::predict(&inv, &fs, &stdin)))
@@ -406,6 +422,10 @@ const FILTERS: &[&str] = &[
     "label $out | (., break $out, 9)",
     "if . == 2 then input else . end",
     "first(., error(\"never\"))",
+    "try input catch \"none\"",
+    "[., (try input catch \"none\")]",
+    "[limit(2; inputs)] | length",
+    "if . == 1 then ([inputs] | length) else . end",
 ];
 
 const FORMATS_IN: &[&str] = &[
@@ -572,6 +592,7 @@ pub fn gen_case(rng: &mut Rng) -> Case {
         faults: vec![],
         stratum: "plain".into(),
         missing: None,
+        usage_error: None,
     };
     // ---- stratum
     let streaming_stdin = stdin_doc.as_ref().is_some_and(|d| d.streaming) && !case.inv.slurp;
@@ -683,6 +704,45 @@ pub fn gen_case(rng: &mut Rng) -> Case {
                 sig: None,
             });
             case.missing = Some(arg);
+        }
+        19 if rng.chance(1, 2) => {
+            // options are recognised wherever they stand (except after `--`), so a malformed one in
+            // front spoils the whole command line
+            case.stratum = "usage".into();
+            let (bad, why): (Vec<&str>, &str) = match rng.usize(9) {
+                0 => (vec!["--frobnicate"], "unknown long flag"),
+                1 => (vec!["-Z"], "unknown short flag"),
+                2 => (vec!["-nZc"], "unknown short flag inside a cluster"),
+                3 => (vec!["--indent", "many"], "--indent expects an integer"),
+                4 => (vec!["--from", "nonsense"], "--from expects a data format"),
+                5 => (vec!["--to", "jsonl"], "--to expects a data format"),
+                6 => (vec!["--to"], "--to without a value (takes the next argument as format)"),
+                7 => (vec!["--indent", "-1"], "--indent expects a non-negative integer"),
+                _ => (vec!["--arg", "onlyname"], "--arg expects a key and a value"),
+            };
+            let single = bad.len() == 1 && bad[0] != "--to";
+            if bad == ["--arg", "onlyname"] {
+                // a key without a value only when nothing follows
+                case.argv.extend(bad.iter().map(|s| s.to_string()));
+                if case.argv.iter().any(|a| a == "--") {
+                    case.stratum = "plain".into();
+                    case.argv.truncate(case.argv.len() - 2);
+                } else {
+                    case.usage_error = Some(why.into());
+                }
+            } else if single || bad.len() == 2 || bad[0] == "--to" {
+                let mut argv: Vec<String> = bad.iter().map(|s| s.to_string()).collect();
+                argv.extend(case.argv.iter().cloned());
+                // `--to` swallows the next argument as its value: a usage error unless that
+                // argument happens to be a format name
+                let next_is_format = bad == ["--to"] && case.argv.first().is_some_and(|a| cli::parse_format(a).is_some());
+                if next_is_format {
+                    case.stratum = "plain".into();
+                } else {
+                    case.argv = argv;
+                    case.usage_error = Some(why.into());
+                }
+            }
         }
         _ => {}
     }
@@ -865,6 +925,9 @@ pub fn eval(case: &Case, wk: &mut Worker) -> Result<(Option<(String, String)>, H
 
 fn shrink_candidates(case: &Case) -> Vec<Case> {
     let mut out = Vec::new();
+    if case.usage_error.is_some() {
+        return out;
+    }
     let rerender = |mut c: Case| {
         let mut rng = Rng::for_run(0, "shrink", 0);
         c.argv = render_argv(&c.inv, &mut rng);
@@ -1072,6 +1135,39 @@ pub fn check(cfg: &Cfg) -> Result<i32, Harness> {
             samples.push(s);
         }
     }
+    // library stratum: readers, main loop and writers in-process under delivery schedules
+    let n_lib = cfg.n(30_000, 1_000_000) as u64;
+    let lib = crate::par::proc_map(cfg, "C17lib", n_lib, 45)?;
+    for (i, r) in lib.into_iter().enumerate() {
+        evaluations += 1;
+        match r {
+            crate::par::CaseEnd::Done(o) => {
+                record_digest(20_000_000 + i as u64, o.digest);
+                tally.merge(&Tally(o.tally));
+                keys.extend(o.keys);
+                violations.extend(o.viol);
+                samples.extend(o.sample);
+            }
+            other => {
+                let mut rng = Rng::for_run(cfg.seed, "C17lib", i as u64);
+                let case = super::c17lib::gen_case(&mut rng);
+                violations.push(Violation {
+                    property: ID.into(),
+                    class: "I0".into(),
+                    detail: format!("library stratum: the worker process {} while running `{}`", match other { crate::par::CaseEnd::Hung => "hung".to_string(), crate::par::CaseEnd::Crashed(h) => format!("crashed ({h})"), _ => String::new() }, case.inv.filter.clone().unwrap_or_default()),
+                    fingerprint: BTreeMap::new(),
+                    case: json!({"library_case": case}),
+                    seed: cfg.seed,
+                    run: 20_000_000 + i as u64,
+                    minimised_steps: 0,
+                });
+            }
+        }
+    }
+    let lib_inconclusive = tally.get("lib_inconclusive");
+    if lib_inconclusive * 20 > n_lib {
+        return Err(Harness(format!("{lib_inconclusive} of {n_lib} library cases inconclusive")));
+    }
     let inconclusive = tally.get("inconclusive");
     if inconclusive * 50 > evaluations {
         return Err(Harness(format!(
@@ -1087,8 +1183,10 @@ pub fn check(cfg: &Cfg) -> Result<i32, Harness> {
         coverage: json!({
             "evaluations": evaluations,
             "distinct_nontrivial": keys.len(),
-            "rule": "each run draws (swarm) an option subset in a random documented spelling, a filter from a family with input/inputs/halt/error/limit/label, an input stream (stdin or 1-3 files; JSON/raw/raw0/CSV/TSV/CBOR/YAML/XML/TOML; valid or truncated) and a stratum: plain, benign (stdin chunking 1 byte..piece-aligned, EINTR, short/EINTR writes, mmap failure forcing the fallback read path with short reads: outcome must equal the model exactly), stall (stdin stops after k complete values), readfail, writefail (ENOSPC/EIO/EPIPE on the n-th stdout write), stderrfail, openfail. distinct = distinct (stratum, filter, option signature, exit) tuples; trivial = empty stdout with exit 0.",
+            "rule": "PROCESS STRATUM: each run draws (swarm) an option subset in a random documented spelling, a filter from a family with input/inputs/halt/error/limit/label, an input stream (stdin or 1-3 files; JSON/raw/raw0/CSV/TSV/CBOR/YAML/XML/TOML; valid or truncated) and a stratum: plain, benign (stdin chunking 1 byte..piece-aligned, EINTR, short/EINTR writes, mmap failure forcing the fallback read path with short reads: outcome must equal the model exactly), stall (stdin stops after k complete values), readfail, writefail (ENOSPC/EIO/EPIPE on the n-th stdout write), stderrfail, openfail. distinct = distinct (stratum, filter, option signature, exit) tuples; trivial = empty stdout with exit 0. LIBRARY STRATUM: see library_stratum; distinct adds distinct (format, filter, chunk size, -n/-s) tuples of cases with a non-trivial schedule.",
             "runs_by_stratum": pick("runs:"),
+            "library_stratum": {"runs_by_input_format": pick("lib_runs:"), "schedule_faults": pick("lib_fault:"), "inconclusive": lib_inconclusive,
+                "what": "read::read over a fault-injecting BufRead (chunks of 1..64 bytes, Interrupted, read error at the end), data::run with input/inputs, write::write into a sink with short and interrupted writes; bytes written and outcome class compared with the same reference model; main.rs and cli.rs are not exercised here"},
             "faults_fired": pick("fired:"),
             "reach_probes": pick("reach:"),
             "inconclusive": inconclusive,
@@ -1123,6 +1221,9 @@ fn opt_sig(inv: &Invocation) -> String {
 }
 
 pub fn replay(cfg: &Cfg, v: &Violation) -> Result<Option<(String, String)>, Harness> {
+    if v.case.get("library_case").is_some() {
+        return super::c17lib::replay(v);
+    }
     let case: Case = serde_json::from_value(v.case.clone())?;
     let mut wk = Worker::new(cfg, 0)?;
     let (viol, _, _) = eval(&case, &mut wk)?;
